@@ -999,6 +999,10 @@ COMBINATOR_PAYLOAD = {
     "std::option::Option::<T>::map": ("Some", 1),
     "std::option::Option::<T>::and_then": ("Some", 1),
     "std::option::Option::<T>::filter": ("Some", 1),
+    "std::result::Result::<T, E>::is_err_and": ("Err", 1),
+    "std::result::Result::<T, E>::is_ok_and": ("Ok", 0),
+    "std::option::Option::<T>::is_some_and": ("Some", 1),
+    "std::option::Option::<T>::is_none_or": ("Some", 1),
 }
 
 
@@ -1047,6 +1051,11 @@ CLOSURE_RUNS_ON = {
     "std::option::Option::<T>::ok_or_else": (0, "replaces"),
     "std::option::Option::<T>::map": (1, "replaces"),
     "std::option::Option::<T>::and_then": (1, "replaces"),
+    "std::option::Option::<T>::filter": (1, "replaces"),
+    "std::result::Result::<T, E>::is_err_and": (1, "replaces"),
+    "std::result::Result::<T, E>::is_ok_and": (0, "replaces"),
+    "std::option::Option::<T>::is_some_and": (1, "replaces"),
+    "std::option::Option::<T>::is_none_or": (1, "replaces"),
     # `cond.then(|| ..)`: the closure runs exactly when the receiver is true
     "core::bool::<impl bool>::then": (1, "replaces"),
     "std::bool::<impl bool>::then": (1, "replaces"),
@@ -1060,6 +1069,22 @@ def body_ty_is_bool(rv):
         return a.get("ty") == "bool"
     return is_place(a) and a["p"].get("ty") == "bool"
 
+
+# unwrapping calls: the result is the payload of Ok / Some (when the fallback, if any, does not run)
+_UNWRAPS = (
+    "std::result::Result::<T, E>::unwrap", "std::result::Result::<T, E>::expect", "std::result::Result::<T, E>::unwrap_or_else",
+    "std::result::Result::<T, E>::unwrap_or", "std::result::Result::<T, E>::unwrap_or_default",
+    "std::option::Option::<T>::unwrap", "std::option::Option::<T>::expect", "std::option::Option::<T>::unwrap_or_else",
+    "std::option::Option::<T>::unwrap_or", "std::option::Option::<T>::unwrap_or_default",
+)
+
+# `is_err_and(f)` & co.: the answer when the closure does not run
+_VARIANT_AND_TESTS = {
+    "std::result::Result::<T, E>::is_err_and": 0,
+    "std::result::Result::<T, E>::is_ok_and": 0,
+    "std::option::Option::<T>::is_some_and": 0,
+    "std::option::Option::<T>::is_none_or": 1,
+}
 
 # `&self -> bool` tests of the variant: definition -> the variant index they answer true for
 _VARIANT_TESTS = {
@@ -1237,6 +1262,21 @@ class PathSens:
                 f, _, _ = self._operand_fact(facts, path, {"k": "copy", "p": sp})
                 if f and f[0] == "var":
                     facts[key] = ("const", f[1])
+                elif all(e["k"] == "deref" for e in sp["pr"]):
+                    # `match *self` with the variant still unknown: branching on it settles the variant of what the
+                    # shared reference points to (in the caller's frame, for a `&self` method)
+                    tgt = (path, sp["l"])
+                    for _ in sp["pr"]:
+                        t2 = self._deref(facts, tgt)
+                        if t2 == tgt:
+                            tgt = None
+                            break
+                        tgt = t2
+                    if tgt is not None:
+                        if tgt in facts and facts[tgt][0] == "notvar":
+                            facts[key] = ("discr_of", tgt, facts[tgt][1])
+                        elif tgt not in facts:
+                            facts[key] = ("discr_of", tgt)
         elif k == "unop" and rv.get("op") == "Not" and body_ty_is_bool(rv):
             f, _, _ = self._operand_fact(facts, path, rv["a"])
             self._clear(facts, key)
@@ -1465,18 +1505,36 @@ class PathSens:
                         f2[self._pk(dkey)] = forced[1]
                     out.append((lab, succ, f2))
                     continue
-                if f and not dest["pr"] and recv is None and run_on is not None and has_may and f["def"].rsplit("::", 1)[-1] in ("map_err", "map", "and_then", "or_else") and "bool" not in f["def"]:
+                if f and not dest["pr"] and recv is None and run_on is not None and has_may and f["def"].rsplit("::", 1)[-1] in ("map_err", "map", "and_then", "or_else", "filter") and "bool" not in f["def"]:
                     # this edge is "the closure did not run": the receiver held the other variant, which these
                     # combinators pass on unchanged
                     f2[dkey] = ("var", 1 - run_on[0])
                 if f and not dest["pr"] and recv is not None and run_on is not None and not (recv == run_on[0]):
                     # the closure does not run: combinators that keep the receiver's variant
-                    if f["def"].rsplit("::", 1)[-1] in ("map_err", "map", "or_else", "and_then"):
+                    if f["def"].rsplit("::", 1)[-1] in ("map_err", "map", "or_else", "and_then", "filter"):
                         f2[dkey] = ("var", recv)
                 if f and not dest["pr"] and recv is not None and run_on is not None and recv == run_on[0] and not has_may:
                     # the mapping function is a plain fn item (`.map(drop)`): the variant is kept, the payload unknown
                     if f["def"].rsplit("::", 1)[-1] in ("map_err", "map") and not f["def"].startswith("core::bool") and "bool" not in f["def"]:
                         f2[dkey] = ("var", recv)
+                if f and not dest["pr"] and self.payloads and t["args"] and f["def"] in _UNWRAPS and is_place(t["args"][0]) and not t["args"][0]["p"]["pr"] and lab not in ("call", "maycall"):
+                    # `r.unwrap_or_else(|e| ..)` & co. where the fallback did not run (or there is none): the value is
+                    # the payload of the good variant, and what is known about that payload carries over
+                    rk = (path, t["args"][0]["p"]["l"])
+                    rf = facts.get(rk)
+                    goodv = 0 if f["def"].startswith("std::result") else 1
+                    if rf and rf[0] == "var" and rf[1] == goodv:
+                        pf_ = facts.get(self._pk(rk))
+                        ppf_ = facts.get(self._ppk(rk))
+                        if pf_ is not None:
+                            f2[dkey] = pf_
+                            if ppf_ is not None:
+                                f2[self._pk(dkey)] = ppf_
+                if f and not dest["pr"] and f["def"] in _VARIANT_AND_TESTS and run_on is not None and has_may:
+                    # `r.is_err_and(|e| ..)`: the closure's bool when it runs (handled by the closure's return edge),
+                    # the constant answer when it does not
+                    if recv is not None and recv != run_on[0]:
+                        f2[dkey] = ("const", _VARIANT_AND_TESTS[f["def"]])
                 if f and not dest["pr"] and len(t["args"]) == 2 and f["def"] in ("std::result::Result::<T, E>::and", "std::result::Result::<T, E>::or", "std::option::Option::<T>::and", "std::option::Option::<T>::or"):
                     # eager combinators: `a.and(b)` is b when a is Ok/Some, else a's Err/None; `a.or(b)` the reverse
                     af, apf, _ = self._operand_fact(facts, path, t["args"][0])
@@ -1665,6 +1723,11 @@ class PathSens:
                         f2[dkey] = ("var", wraps)
                         if ret_f and ret_f[0] in ("var", "const") and self.payloads:
                             f2[self._pk(dkey)] = ret_f
+                    elif cname == "std::option::Option::<T>::filter" and ret_f and ret_f[0] == "const":
+                        # `opt.filter(|x| pred)`: Some(x) stays when the predicate says true, else None
+                        f2[dkey] = ("var", 1 if ret_f[1] else 0)
+                    elif cname in _VARIANT_AND_TESTS and ret_f and ret_f[0] == "const":
+                        f2[dkey] = ret_f  # the closure's answer is the call's answer
                     elif short in ("unwrap_or_else", "or_else", "and_then", "ok_or_else") and ret_f and ret_f[0] != "discr_of":
                         if short == "ok_or_else":
                             f2[dkey] = ("var", 1)
@@ -1900,7 +1963,9 @@ def carriers(sup, node, local, extra_pass=()):
                 caller = sup.body_of((ppath, 0)) if ppath else sup.root
                 ct = caller.blocks[cbb]["term"]
                 direct = any(lab == "call" and m[0] == path for lab, m in sup.edges((ppath, cbb)))
-                if direct and not ct["dest"]["pr"]:
+                via_test = (not direct) and (fn_of(ct) or {}).get("def") in _VARIANT_AND_TESTS
+                if (direct or via_test) and not ct["dest"]["pr"]:
+                    # (`r.is_err_and(|e| ..)`: the closure's answer is the call's answer)
                     k = (ppath, ct["dest"]["l"])
                     if k not in seen:
                         seen.add(k)
